@@ -5,7 +5,7 @@ CONSTANTS
   ScopeNames = {"a", "ab"}
   MaxScopeDepth = 2
   MaxStack = 3
-  BindVals <- BV12
+  BindVals <- BV12F
   MaxBindings = 5
   Enabled = {"Bind", "EnterScope", "ExitScope", "Call"}
   NameOrder <- Names6
